@@ -546,9 +546,10 @@ class GBNFCompiler:
         Returns:
             Escaped string safe for GBNF literal
         """
-        # Escape backslashes first, then quotes
+        # Escape backslashes first, then quotes; a literal cannot span lines
         result = value.replace("\\", "\\\\")
         result = result.replace('"', '\\"')
+        result = result.replace("\n", "\\n").replace("\r", "\\r")
         return result
 
     def compile_chain(self, chain: ConstraintChain) -> str:
@@ -608,7 +609,9 @@ class GBNFCompiler:
         rules: list[str] = []
 
         # Add primitives
-        rules.append("# GBNF Grammar for OCTAVE schema: " + schema.name)
+        # A comment ends at the line break: keep the (untrusted) schema name on one line
+        comment_name = " ".join(str(schema.name).split())
+        rules.append("# GBNF Grammar for OCTAVE schema: " + comment_name)
         rules.append("")
 
         # Whitespace rule
@@ -629,7 +632,7 @@ class GBNFCompiler:
                 pattern = "[^\\n]*"
 
             # Create field rule: field-name ::= "FIELD_NAME" "::" ws pattern
-            rules.append(f'{rule_name} ::= "{field_name}" "::" ws {pattern}')
+            rules.append(f'{rule_name} ::= "{self._escape_literal(field_name)}" "::" ws {pattern}')
 
         rules.append("")
 
@@ -646,7 +649,7 @@ class GBNFCompiler:
 
         # Build document structure
         if include_envelope:
-            schema_name = schema.name.upper()
+            schema_name = self._escape_literal(str(schema.name).upper())
             rules.append(f'envelope-start ::= "==={schema_name}==="')
             rules.append('envelope-end ::= "===END==="')
             rules.append("")
